@@ -38,7 +38,7 @@ def main (args : List String) : IO UInt32 := do
   | ["runlimit"] => Drv.loop stdin Drv.RunLimit.step {}; return 0
   | ["iterutils"] => Drv.loop stdin Drv.IterUtils.step .none; return 0
   | ["handlerstore"] => Drv.loop stdin Drv.HandlerStore.step (HandlerStore.Store.init (.mem none)); return 0
-  | ["migrate"] => Drv.loop stdin Drv.Migrate.step Migrate.fresh; return 0
+  | ["migrate"] => Drv.loop stdin Drv.Migrate.step (Migrate.fresh, []); return 0
   | ["archive"] => Drv.loop stdin Drv.Archive.step (); return 0
   | ["sseclient"] => Drv.loop stdin Drv.SseClient.step (); return 0
   | ["resource"] => Drv.loop stdin Drv.Resource.step {}; return 0
